@@ -379,7 +379,7 @@ var ruleWalkDiscipline = &core.Rule{ID: "R03.2", Min: 6,
 
 // R03.3
 var ruleCloneChain = &core.Rule{ID: "R03.3", Min: 5,
-	Doc: "chain clone: returns the clone of the receiver (with the parameter map); loops p = parent(receiver); p != nil; p = parent(p); each ancestor is cloned without parameters and linked as parent of the previous clone; the clone copies type, aliases, extension and nothing else",
+	Doc: "chain clone: returns the clone of the receiver (with the parameter map); loops p = parent(receiver); p != nil; p = parent(p); each ancestor is cloned without parameters and linked as parent of the previous clone; a copy is a call of the clone function or a node allocated in place; it copies type, aliases, extension and nothing else",
 	Run: func(c *core.Ctx, s *core.Sink) {
 		m := getWalk(c)
 		f := m.chain
@@ -541,7 +541,7 @@ var ruleCloneChain = &core.Rule{ID: "R03.3", Min: 5,
 
 // R02.2 + R02.3
 var ruleParams = &core.Rule{ID: "R02.2", Min: 5,
-	Doc: "parameter discipline: the parameter map given to the chain clone is fresh and written only with the constant key charset, only with the non-empty result of the sniffer looked up by the receiver's own type constant on the walk's unmodified header; the clone turns it into the result's type string only through mime.FormatMediaType(registered type, map)",
+	Doc: "parameter discipline: the parameter map given to the chain clone is fresh and written only with the constant key charset, only with the non-empty result of the sniffer selected by the current node's own type (map lookup, selection function, or direct calls under tests of the type) on the walk's unmodified header; the clone turns it into the result's type string only through mime.FormatMediaType(registered type, map)",
 	Run: func(c *core.Ctx, s *core.Sink) {
 		m := getWalk(c)
 		cm := getCharset(c)
